@@ -127,7 +127,7 @@ class State:
 
 def gen(H, tier):
     multi = H.draw(3) == 2
-    k = (2 + H.draw(2)) if multi else 1
+    k = (1 + H.draw(3)) if multi else 1  # (a multi-objective problem may have a single objective: `minimize=[True]`)
     n = 2 + H.draw(60 if tier == "quick" else 200)
     alphabet = H.pick([[0, 1], [0, 1, 2, 3], [5, 5, 5, 7], [-2, -1, 0, 1, 2], [0.5, 0.25, 1e9, -1e9, 0]])
     hist = []
@@ -146,6 +146,7 @@ def gen(H, tier):
             "batch_forms": [H.pick(["list", "list", "iter", "generator"]) for _ in range(4)],
             "rtype": H.pick(["float", "float", "float", "int", "np.float64", "np.int64", "np.uint8", "np.uint64"]),
             "seeded_restart": bool(H.draw(5) == 4),
+            "default_aggregate": bool(H.draw(2)),
             "resume": H.pick([None, None, None, "again", "rs", "hc", "opo", "gp"]), "resume_extra": H.draw(12)}
 
 
@@ -199,7 +200,10 @@ def run(ctx):
         return [returned(x) for x in v]
 
     if cfg["multi"]:
-        problem = MultiObjectiveProblem(list(cfg["minimize"]), ff_multi, aggregate_fitness=(lambda comps: st.agg(comps)))
+        if cfg["default_aggregate"]:
+            problem = MultiObjectiveProblem(list(cfg["minimize"]), ff_multi)  # the library's own aggregate: sum, minimised ones negated
+        else:
+            problem = MultiObjectiveProblem(list(cfg["minimize"]), ff_multi, aggregate_fitness=(lambda comps: st.agg(comps)))
         tracker = MultiObjectiveProgressTracker(problem, SequentialEvaluator(), recorders=[Probe(st)])
     else:
         problem = SingleObjectiveProblem(ff_single, minimize=cfg["minimize"][0])
